@@ -23,11 +23,31 @@ SAMPLES_BASE = [0, 1, 2, 5, 0x7f, 0x80, 0x81, 0xfe, 0xff, 0x100, 0x101, 0x17f, 0
                 0xffffffff80000000, 0xffffffffffffffff, 0x7ff8000000000001, 0xfff0000000000000, 0x123456789abcdef0]
 
 
-def samples(width, seed=0, n_random=24):
+import struct as _struct
+
+
+def _d(x):
+    return _struct.unpack("<Q", _struct.pack("<d", x))[0]
+
+
+def _f(x):
+    return _struct.unpack("<I", _struct.pack("<f", x))[0]
+
+
+FLOAT_SAMPLES = {
+    64: [_d(0.1), _d(1e300), _d(1.0 / 3.0), _d(3.141592653589793), _d(1.0), _d(-2.5), _d(16777217.0), 0x47efffffe0000000,
+         0x47efffffe0000001, 0x47effffff0000000, _d(1e-40), _d(2147483648.5), _d(-2147483648.5), _d(4294967296.0), _d(-1.0),
+         _d(0.5), _d(1e19), _d(-1e19), 0x7ff0000000000000, 0xfff0000000000000, 0x8000000000000000],
+    32: [_f(0.1), _f(1.0 / 3.0), _f(1.0), _f(-2.5), _f(16777216.0), _f(3.4e38), _f(1e-40), _f(2147483648.0), _f(-2147483904.0),
+         _f(4294967296.0), _f(0.5), _f(-1.0), 0x7f800000, 0xff800000, 0x80000000],
+}
+
+
+def samples(width, seed=0, n_random=24, floats=False):
     rnd = random.Random(1000003 * width + seed)
     m = (1 << width) - 1
     out = []
-    for v in SAMPLES_BASE + [rnd.getrandbits(64) for _ in range(n_random)]:
+    for v in (FLOAT_SAMPLES.get(width, []) if floats else []) + SAMPLES_BASE + [rnd.getrandbits(64) for _ in range(n_random)]:
         v &= m
         if v not in out:
             out.append(v)
